@@ -122,8 +122,23 @@ fn c11_case(c: &EngCase, st: &mut Stats, dense: u64) -> Result<(), String> {
     ks.sort();
     ks.dedup();
     let mut first_some: Option<u64> = None;
+    // half of the cases run all their searches on ONE engine object (the plugin keeps one for a
+    // whole game); the limits are then visited in a generated order, not ascending
+    let reuse = c.play.aux & 2 == 2;
+    let mut shared = chess_engine::Engine::default();
+    if reuse {
+        let mut x = Expand(c.play.aux);
+        // warm the engine with a search of an unrelated position and a longer budget
+        let _ = run_search_on(&mut shared, &Board::standard(), &ThreeFold::new(), 300 + x.below(600), !positional);
+        st.class("engine object reused across searches");
+    }
     for &k in &ks {
-        let ((mv, _score), _depth, _polls, expired) = run_search(&s.board, &s.tf, k, positional).map_err(|e| format!("C11 {}", search_err(e, &fen, k)))?;
+        let ((mv, _score), _depth, _polls, expired) = if reuse {
+            run_search_on(&mut shared, &s.board, &s.tf, k, positional)
+        } else {
+            run_search(&s.board, &s.tf, k, positional)
+        }
+        .map_err(|e| format!("C11 {}{}", if reuse { "[one engine object reused for all searches of the case] " } else { "" }, search_err(e, &fen, k)))?;
         match mv {
             Some(m) => {
                 let m = from_cm(m);
